@@ -18,6 +18,10 @@ def gen_design(r, cfg):
     def new_net():
         if r.random() < 0.3:
             n = ident(r, netnames)
+            if cfg.get("nested_brackets", True) and r.random() < 0.3:
+                # bits of a row of a two-dimensional signal "m[1][0]" or of a sliced signal "leds[15:0][3]" (as synthesis
+                # tools write them): the cable is named by everything before the LAST bracket group
+                n = n + r.choice(["[0]", "[1]", "[3:0]", "[15:0]"])
             w = r.randint(2, 3)
             bits = [(n, i) for i in range(w)]
             nets.extend(bits)
